@@ -240,6 +240,7 @@ H_V == { Hdr(VBase, <<VReg, DSlice("r", "q", I1, I3, None), DIndex("s", "q", I2)
          Hdr(VBase, <<VReg, DSlice("r", "q", I1, NumI(4), None)>>, <<>>, ExactGates),         \* stop > size
          Hdr(VBase, <<VReg, DSlice("r", "q", NumI(-1), I2, None)>>, <<>>, ExactGates),        \* negative start
          Hdr(VBase, <<VReg, DSlice("r", "q", I0, I2, I0)>>, <<>>, ExactGates),                \* zero step
+         Hdr(VBase, <<VReg, DSlice("r", "q", I0, I2, Let("a"))>>, <<>>, ExactGates),         \* a step that an override makes zero
          Hdr(VBase, <<VReg, DWhole("r", "a")>>, <<>>, ExactGates),                            \* alias of a let
          Hdr(VBase, <<VReg, DIndex("s", "q", I3)>>, <<>>, ExactGates),                        \* index = size
          Hdr(VBase, <<VReg, DIndex("s", "q", Let("k"))>>, <<>>, ExactGates),                  \* let index = size
